@@ -16,6 +16,11 @@ import (
 // write only all-or-nothing is required.
 func FaultLeaf(p *Profile, cfg core.Cfg, ops []core.Op, leaf *Leaf, prop string) {
 	queries := p.Obs(cfg)
+	// a replayed counterexample carries the fault it was found with: all faults are re-enumerated
+	ops = append([]core.Op(nil), ops...)
+	for i := range ops {
+		ops[i].Fault = nil
+	}
 	rc := record(cfg, ops, queries)
 	if rc.broken != "" {
 		leaf.NoExpand = true
@@ -82,116 +87,167 @@ func FaultLeaf(p *Profile, cfg core.Cfg, ops []core.Op, leaf *Leaf, prop string)
 			}
 		}
 		for _, cut := range cuts {
-			bump(leaf, "faults")
-			f := core.Fault{At: it.idx, Cut: cut}
-			evd := fmt.Sprintf("%s fails", evDesc(it.ev))
-			if cut > 0 {
-				evd += fmt.Sprintf(" after %d bytes were written", cut)
-			}
-			cls := it.kind.String() + " " + extOf(it.ev.Path)
-			in := core.OpenInst(cfg)
-			okPrefix := true
-			for _, op := range ops[:last] {
-				in.Apply(op)
-				if in.Poisoned != "" || in.DB == nil {
-					okPrefix = false
-					break
+			for variant := 0; variant < 3; variant++ {
+				bump(leaf, "faults")
+				f := core.Fault{At: it.idx, Cut: cut}
+				evd := fmt.Sprintf("%s fails", evDesc(it.ev))
+				if cut > 0 {
+					evd += fmt.Sprintf(" after %d bytes were written", cut)
 				}
-			}
-			if !okPrefix {
-				in.Discard()
-				continue
-			}
-			prev, _ := in.Observe(queries)
-			modelPrev := in.Model.Clone()
-			op := ops[last]
-			op.Fault = &f
-			r := in.Apply(op)
-			if r.Panic != "" {
-				add("panic-on-fault", nil, "panic@"+cls, f, evd, r.Panic)
-				in.Discard()
-				continue
-			}
-			if !r.Faulted {
-				// the recorded position was not reached (the code took another path): not judged
-				bump(leaf, "faults_not_reached")
-				in.Discard()
-				continue
-			}
-			obs, oerr := in.Observe(queries)
-			leaf.Evals += len(obs)
-			if oerr != nil {
-				add("obs-failed-after-fault", nil, "View@"+cls, f, evd, oerr.Error())
-				in.Discard()
-				continue
-			}
-			dPrev := core.DiffObs(queries, prev, obs)
-			// the model after a successful commit of the same op (for the all-or-nothing case)
-			committedOK := func(o []core.Res) bool {
-				return len(core.CheckObs(in.Model, queries, o)) == 0 && in.Model.Canon() != modelPrev.Canon()
-			}
-			isSync := it.kind == vrt.EvSync
-			choice := "none"
-			switch {
-			case !r.Err:
-				// the call swallowed the error: then the transaction must be fully there
-				if len(core.CheckObs(in.Model, queries, obs)) > 0 {
-					add("fault-swallowed", core.CheckObs(in.Model, queries, obs), "swallowed@"+cls, f, evd, "the transaction returned nil although a file operation failed, and its effects are not fully visible")
+				cls := it.kind.String() + " " + extOf(it.ev.Path)
+				in := core.OpenInst(cfg)
+				okPrefix := true
+				for _, op := range ops[:last] {
+					in.Apply(op)
+					if in.Poisoned != "" || in.DB == nil {
+						okPrefix = false
+						break
+					}
+				}
+				if !okPrefix {
 					in.Discard()
 					continue
 				}
-				choice = "all"
-			case len(dPrev) == 0:
-				choice = "none"
-			case isSync && committedOK(obs):
-				choice = "all" // never reached: a failed op does not advance in.Model
-			default:
-				add("effect-in-process", dPrev, cls, f, evd, "the failed transaction changed reads in the running process")
-				in.Discard()
-				continue
-			}
-			// after reopen
-			if err := in.CloseOnly(); err != nil {
-				add("close-failed-after-fault", nil, "Close@"+cls, f, evd, err.Error())
-				in.Discard()
-				continue
-			}
-			in2 := core.OpenDir(cfg, in.Dir, in.Model)
-			if in2.OpenErr != nil {
-				add("open-error-after-fault", nil, ErrClass(in2.OpenErr.Error())+"@"+cls, f, evd, in2.OpenErr.Error())
-				in.Discard()
-				continue
-			}
-			obs2, _ := in2.Observe(queries)
-			in2.CloseOnly()
-			leaf.Evals += len(obs2)
-			ref := prev
-			if choice == "all" {
-				ref = obs
-			}
-			if d := core.DiffObs(queries, ref, obs2); len(d) > 0 {
-				// sync failed after the complete write: fully visible after reopen is allowed
-				if isSync && r.Err {
-					m2 := in.Model.Clone()
-					w := m2.Clone()
-					okAll := true
-					for ci, c := range ops[last].Calls {
-						if ci < len(r.Calls) {
-							w.Eval(c, core.Res{})
-						}
-					}
-					if len(core.CheckObs(w, queries, obs2)) > 0 {
-						okAll = false
-					}
-					if okAll {
-						bump(leaf, "sync_fault_all_after_reopen")
+				prev, _ := in.Observe(queries)
+				modelPrev := in.Model.Clone()
+				op := ops[last]
+				op.Fault = &f
+				r := in.Apply(op)
+				if r.Panic != "" {
+					add("panic-on-fault", nil, "panic@"+cls, f, evd, r.Panic)
+					in.Discard()
+					continue
+				}
+				if !r.Faulted {
+					// the recorded position was not reached (the code took another path): not judged
+					bump(leaf, "faults_not_reached")
+					in.Discard()
+					continue
+				}
+				obs, oerr := in.Observe(queries)
+				leaf.Evals += len(obs)
+				if oerr != nil {
+					add("obs-failed-after-fault", nil, "View@"+cls, f, evd, oerr.Error())
+					in.Discard()
+					continue
+				}
+				dPrev := core.DiffObs(queries, prev, obs)
+				// the model after a successful commit of the same op (for the all-or-nothing case)
+				committedOK := func(o []core.Res) bool {
+					return len(core.CheckObs(in.Model, queries, o)) == 0 && in.Model.Canon() != modelPrev.Canon()
+				}
+				isSync := it.kind == vrt.EvSync
+				choice := "none"
+				switch {
+				case !r.Err:
+					// the call swallowed the error: then the transaction must be fully there
+					if len(core.CheckObs(in.Model, queries, obs)) > 0 {
+						add("fault-swallowed", core.CheckObs(in.Model, queries, obs), "swallowed@"+cls, f, evd, "the transaction returned nil although a file operation failed, and its effects are not fully visible")
 						in.Discard()
 						continue
 					}
+					choice = "all"
+				case len(dPrev) == 0:
+					choice = "none"
+				case isSync && committedOK(obs):
+					choice = "all" // never reached: a failed op does not advance in.Model
+				default:
+					add("effect-in-process", dPrev, cls, f, evd, "the failed transaction changed reads in the running process")
+					in.Discard()
+					continue
 				}
-				add("effect-after-reopen", d, cls, f, evd, "the failed transaction changed reads after close+reopen")
+				// later transactions of the same process commit behind the failed one: they must be
+				// visible, leave everything else unchanged and survive the reopen (variant 1: a small
+				// record; variant 2: one that forces a rotation, then a small one)
+				if variant > 0 {
+					big := int(cfg.Seg) - 60
+					if big < 1 {
+						big = 1
+					}
+					follow := []core.Op{{Kind: "update", Calls: []core.Call{{F: "Put", B: "kv", K: "zzp", V: "p1"}}}}
+					if variant == 2 {
+						follow = []core.Op{{Kind: "update", Calls: []core.Call{{F: "Put", B: "kv", K: "zzq", Big: big}}}, follow[0]}
+					}
+					bump(leaf, "faults_with_later_commits")
+					bad := false
+					for _, fop := range follow {
+						fr := in.Apply(fop)
+						if fr.Panic != "" {
+							add("panic-after-fault", nil, "panic-later-commit@"+cls, f, evd, fop.String()+" after the failed transaction panicked: "+fr.Panic)
+							bad = true
+							break
+						}
+						if fr.Err {
+							add("later-commit-failed", nil, ErrClass(fr.Msg)+"@"+cls, f, evd, fop.String()+" after the failed transaction failed: "+fr.Msg)
+							bad = true
+							break
+						}
+					}
+					if bad {
+						in.Discard()
+						continue
+					}
+					obsP, perr := in.Observe(queries)
+					leaf.Evals += len(obsP)
+					if perr != nil {
+						add("obs-failed-after-fault", nil, "View-later@"+cls, f, evd, perr.Error())
+						in.Discard()
+						continue
+					}
+					if d := core.CheckObs(in.Model, queries, obsP); len(d) > 0 {
+						add("effect-on-later-commit", d, cls, f, evd, "after the failed transaction, later successful transactions do not produce the expected reads in the running process")
+						in.Discard()
+						continue
+					}
+					obs, prev = obsP, obsP
+				}
+				// after reopen
+				if err := in.CloseOnly(); err != nil {
+					add("close-failed-after-fault", nil, "Close@"+cls, f, evd, err.Error())
+					in.Discard()
+					continue
+				}
+				in2 := core.OpenDir(cfg, in.Dir, in.Model)
+				if in2.OpenErr != nil {
+					add("open-error-after-fault", nil, ErrClass(in2.OpenErr.Error())+"@"+cls, f, evd, in2.OpenErr.Error())
+					in.Discard()
+					continue
+				}
+				obs2, _ := in2.Observe(queries)
+				in2.CloseOnly()
+				leaf.Evals += len(obs2)
+				ref := prev
+				if choice == "all" {
+					ref = obs
+				}
+				if d := core.DiffObs(queries, ref, obs2); len(d) > 0 {
+					// sync failed after the complete write: fully visible after reopen is allowed
+					if isSync && r.Err {
+						m2 := in.Model.Clone()
+						w := m2.Clone()
+						okAll := true
+						for ci, c := range ops[last].Calls {
+							if ci < len(r.Calls) {
+								w.Eval(c, core.Res{})
+							}
+						}
+						if len(core.CheckObs(w, queries, obs2)) > 0 {
+							okAll = false
+						}
+						if okAll {
+							bump(leaf, "sync_fault_all_after_reopen")
+							in.Discard()
+							continue
+						}
+					}
+					what := "the failed transaction changed reads after close+reopen"
+					if variant > 0 {
+						what = "after the failed transaction and later successful commits, close+reopen does not show the state the process showed"
+					}
+					add("effect-after-reopen", d, cls, f, evd, what)
+				}
+				in.Discard()
 			}
-			in.Discard()
 		}
 	}
 	leaf.Nontrivial = leaf.Extra["faults"] > 0
